@@ -372,6 +372,17 @@ WithLabel(rows, lx, ly, ch) ==
      IF r # ly + 1 THEN rows[r]
      ELSE [j \in 1..(IF lx + 1 > Len(rows[r]) THEN lx + 1 ELSE Len(rows[r])) |->
              IF j = lx + 1 THEN ch ELSE IF j <= Len(rows[r]) THEN rows[r][j] ELSE SP]]
+\* the drawing at cell column k of rows n+1.., with anything that is not a drawing character left and right of it on
+\* the same rows, at least two blank cells away from the drawing's columns
+BesideRows(rows, D, k, n) ==
+  /\ Len(rows) = n + Len(D) /\ \A i \in 1..n : rows[i] = <<>>
+  /\ \A i \in 1..Len(D) :
+       LET cr == CellRow(rows[n + i]) lo == k + 1 hi == k + DrawingW(D) IN
+       /\ Len(cr) >= k + Len(D[i]) /\ SubSeq(cr, k + 1, k + Len(D[i])) = D[i]
+       /\ \A p \in 1..Len(cr) :
+            /\ (p > k + Len(D[i]) /\ p <= hi + 2) => cr[p] = SP
+            /\ (p >= lo - 2 /\ p < lo) => cr[p] = SP
+            /\ (p < lo \/ p > hi) => (cr[p] \in {SP, NUL} \/ ~Drawing(cr[p]))
 CircleOracle(D, k, n, e) ==
   /\ IsCircle(e) /\ AllOnLattice(e.n)
   /\ U(e.n[3]) = RadiusOf(D)
@@ -381,13 +392,17 @@ C13_OK(ev) ==
   LET D == CircleDrawings[ev.circ.idx] k == ev.circ.k n == ev.circ.n
       C == { i \in Idx(ev.doc) : IsCircle(ev.doc.elems[i]) } IN
   /\ ev.doc.wf = 1
-  /\ IF ev.circ.extra = 2 THEN ev.rows = WithLabel(PlacedRows(D, k, n), ev.circ.lx, ev.circ.ly, ev.circ.lch)
+  /\ IF ev.circ.extra = 3 THEN BesideRows(ev.rows, D, k, n)
+     ELSE IF ev.circ.extra = 2 THEN ev.rows = WithLabel(PlacedRows(D, k, n), ev.circ.lx, ev.circ.ly, ev.circ.lch)
                                 /\ CellBlank(PlacedRows(D, k, n), ev.circ.lx, ev.circ.ly)
                                 /\ NotTouching(PlacedRows(D, k, n), ev.circ.lx, ev.circ.ly)
      ELSE SubSeq(ev.rows, 1, n + Len(D)) = PlacedRows(D, k, n)
   /\ Cardinality(C) = 1
   /\ CircleOracle(D, k, n, ev.doc.elems[CHOOSE i \in C : TRUE])
   /\ IF ev.circ.extra = 0 THEN Len(ev.doc.elems) = 1 /\ Len(ev.rows) = n + Len(D)
+     ELSE IF ev.circ.extra = 3
+     THEN \* unrelated words (also quoted, also many of them) left and right of the drawing on its own rows: texts only
+          \A i \in Idx(ev.doc) : i \notin C => IsText(ev.doc.elems[i])
      ELSE IF ev.circ.extra = 2
      THEN \* one plain label character in a blank cell of the drawing's rows, not touching the drawing:
           \* the circle, and that character as text in its own cell, and nothing else
